@@ -3,7 +3,7 @@ import sys, os
 sys.path.insert(0, os.path.dirname(os.path.dirname(os.path.abspath(__file__))))
 from sfa.extract import extract
 from sfa.vg import *
-F, info = extract(sys.argv[2] if len(sys.argv) > 2 else '/repo')
+F, info = extract(sys.argv[2] if len(sys.argv) > 2 and not sys.argv[2].startswith('-') else '/repo')
 names = sys.argv[1].split(',') if len(sys.argv) > 1 and sys.argv[1] != 'all' else None
 for v in F.views:
     if names and v.name not in names: continue
